@@ -245,20 +245,19 @@ Lemma step_pre : forall n s log c s' evs,
   length (s_tasks s) = n -> good n log -> PreInv s log -> step s c = (s', evs) ->
   good n (log ++ evs) /\ (arrived_all n (log ++ evs) \/ PreInv s' (log ++ evs)).
 Proof.
-  intros n s log c s' evs Hlen Hg Hpre Hstep.
+  intros n s log c s' evs Hlen Hg Hpre Hstep. subst n.
   pose proof Hpre as [Hf [Hh [Ha Ht]]].
-  assert (Hsame : forall s0, (s0, @nil event) = (s', evs) ->
-            good n (log ++ evs) /\ (arrived_all n (log ++ evs) \/ PreInv s' (log ++ evs))).
-  { intros s0 E. inversion E; subst. rewrite app_nil_r. auto. }
+  assert (Hsame : good (length (s_tasks s)) (log ++ []) /\ (arrived_all (length (s_tasks s)) (log ++ []) \/ PreInv s (log ++ []))).
+  { rewrite app_nil_r. split; [assumption | right; assumption]. }
   destruct c as [i k | i | m]; simpl in Hstep.
-  - destruct (nth_error (s_tasks s) i) as [t|] eqn:Hi; [|inversion Hstep; subst; rewrite app_nil_r; auto].
-    destruct (t_blocked t) eqn:Hb; [inversion Hstep; subst; rewrite app_nil_r; auto|].
-    destruct (t_todo t) as [|a rest] eqn:Htodo; [inversion Hstep; subst; rewrite app_nil_r; auto|].
+  - destruct (nth_error (s_tasks s) i) as [t|] eqn:Hi; [|inversion Hstep; subst; exact Hsame].
+    destruct (t_blocked t) eqn:Hb; [inversion Hstep; subst; exact Hsame|].
+    destruct (t_todo t) as [|a rest] eqn:Htodo; [inversion Hstep; subst; exact Hsame|].
     pose proof (proj2 (Ht _ _ Hi) Hb) as Hff. rewrite Htodo in Hff.
     destruct (is_wait a) eqn:Hw.
     + (* the task arrives at the barrier *)
       destruct a; try discriminate. simpl in Hstep.
-      destruct (Nat.eqb (S (s_arrived s)) (bsize s)) eqn:Hfull; inversion Hstep; subst; clear Hstep.
+      destruct (Nat.eqb (bsize s) (S (s_arrived s))) eqn:Hfull; inversion Hstep; subst; clear Hstep.
       * (* last arrival: release *)
         assert (Hall : arrived_all (length (s_tasks s)) (log ++ [EvAct i ABarrierWait; EvRelease])).
         { intros j Hj. apply in_or_app.
@@ -283,7 +282,7 @@ Proof.
       assert (Hgoal : forall hs, hs = [] ->
                 (mkSys (upd (s_tasks s) i (mkTask (t_res t) rest false)) (s_arrived s) (s_frames s) hs,
                  [EvAct i a]) = (s', evs) ->
-                good n (log ++ evs) /\ (arrived_all n (log ++ evs) \/ PreInv s' (log ++ evs))).
+                good (length (s_tasks s)) (log ++ evs) /\ (arrived_all (length (s_tasks s)) (log ++ evs) \/ PreInv s' (log ++ evs))).
       { intros hs Hhs E. inversion E; subst s' evs.
         split; [apply good_app_nonet; [assumption | apply no_net_single]|].
         right. apply pre_progress; assumption. }
@@ -291,8 +290,8 @@ Proof.
         try (apply (Hgoal (s_helpers s) Hh); exact Hstep).
       (* ASpawn b with b = false *)
       subst may_send. apply (Hgoal (s_helpers s) Hh). exact Hstep.
-  - rewrite Hh in Hstep. simpl in Hstep. inversion Hstep; subst. rewrite app_nil_r. auto.
-  - rewrite Hf in Hstep. simpl in Hstep. inversion Hstep; subst. rewrite app_nil_r. auto.
+  - rewrite Hh in Hstep. simpl in Hstep. inversion Hstep; subst. exact Hsame.
+  - rewrite Hf in Hstep. simpl in Hstep. inversion Hstep; subst. exact Hsame.
 Qed.
 
 Lemma step_phase : forall n s log c s' evs,
